@@ -10,6 +10,12 @@ CHECKS = {
          "4,000 (quick) / 80,000 (thorough) errors from the lexer, both parsers (named sources), limited entry points, LoadSchema over several uniquely named files (after an early load that extends built-ins), Validate under default and random rule subsets, VariableValues with defective values and hostile map keys; coverage counted by distinct message template (about 230 in the quick tier).",
          "JSON shape is checked on json.Marshal of the *gqlerror.Error; message wording is not compared against an oracle.", "4/C20"),
 
+ 'C12': ("Printer.tla: the formatter is specified through its inverse, the SPECIFICATION's own parser (Lexer.tla + QueryGrammar.tla + Tree.tla); Printer_Trace requires SpecParse(format(d)) = d, the library's re-parse to agree, and format(parse(format(d))) = format(d); plus every sentence of the QueryGrammar_MC state graph formatted and re-read",
+         "Every derivable sentence of the bounded grammar graph and a sentence through every transition of the larger graph, each under a rotating option set; 60 (quick) / 1,500 (thorough) generated document trees (strings with quotes, backslashes, control characters, non-BMP and non-printable runes, triple quotes, odd indentation; directives on every location incl. variable definitions; fragment variables; comments) x all 16 option sets (4 indents x comments x compacted).",
+         "Comments are not part of the compared document; the padding state machine itself is not modelled (the formatter is specified by what its output must denote).", "4/C12"),
+ 'C13': ("Printer.tla with the type-system parser of the specification (SchemaGrammar.tla): Printer_Trace requires SpecParse(format(doc)) = doc (descriptions dropped when switched off; all schema definitions / extensions merged as the formatter merges them), the library's re-parse to agree, fixpoint; for loaded schemas the canonical projection of LoadSchema(FormatSchema(s)) must equal that of s",
+         "50 (quick) / 1,200 (thorough) grammar-directed type-system documents (every definition kind, extensions, constant directives and defaults, descriptions from a pool of 29 hostile texts: leading / trailing blank space and newlines, common indentation, CR, control characters, triple quotes, trailing backslash or quote) x 12 option sets (3 indents x comments x without-description); 40 / 800 loaded schemas from the typed generator (custom roots, default-named non-roots, schema description and directives, repeatable directives, described arguments, hostile descriptions) plus 12 hand-written corner cases x 4 / 12 option sets.",
+         "Two recorded known findings pinned by golden files (argument separator under WithoutDescription; schema description not printed by FormatSchema). Default values and directive arguments of loaded schemas are compared by printed literal.", "4/C13"),
  'C11': ("Shared.tla (read-only operations on one schema; ReadOnly and SameAsAlone invariants over all interleavings of 3 goroutines, faulty writer as non-vacuity witness) + Shared_Trace on real runs: results equal the call run alone on a pristine schema, canonical deep snapshots of the schema graph equal before/after, no race-detector report; forced interleavings through hook H3",
          "Per run: 2/8 schemas x (4/12 single-threaded histories of 30/75 calls with a snapshot around every call; goroutine runs with 2..8 / 2..32 goroutines in a child process built with -race; all 20 / 70 interleavings of two validations at walkSelection granularity). Calls are random mixes of parse+validate (valid, faulty, type-blind), variable coercion, argument resolution and schema formatting.",
          "Data-race freedom is decided by the Go race detector on the schedules that occur; the snapshot is a reflective walk of everything reachable from *ast.Schema (including spare slice capacity).", "4/C11"),
